@@ -339,4 +339,10 @@ def RB_edge_oriented(ctx):
     R4_edge_oriented(ctx)
 
 
-RULES = [R1_decision_table, R2_loop_exits, R3_route_or_error, R4_response, R_graph_roles, R5_who_reports_no_path, RA_adjacency_container, RB_edge_oriented]
+def RC_adjacency_built(ctx):
+    """what a search can expand is what the loader linked: every edge row is inserted into adj and rev unconditionally (shared with C15.R1)"""
+    from props.C15 import R1_adjacency
+    R1_adjacency(ctx)
+
+
+RULES = [R1_decision_table, R2_loop_exits, R3_route_or_error, R4_response, R_graph_roles, R5_who_reports_no_path, RA_adjacency_container, RB_edge_oriented, RC_adjacency_built]
